@@ -1,4 +1,10 @@
-"""C07 — combined over the three quantile sketch kinds (parts built separately: c07kll, c07req, c07quant)."""
+"""C07 — combined over family parts (built separately: c07kll, c07req, c07quant)."""
 from ..combine import combined_spec
 
-SPEC = combined_spec("C07", ["c07kll", "c07req", "c07quant"], "C07")
+SPEC = combined_spec("C07", ['c07kll', 'c07req', 'c07quant'], "C07")
+CLAIM_TEXT = ('Quantile sketches (KLL, REQ, classic): kernel-checked theorems over ALL histories (any number of sketches; updates, merges, copies, views; every coin sequence) that n/min/max are exact, weights are conserved by the compaction schedule, retained counts stay within the capacity formulas, levels stay sorted, the sorted view is sorted with total n and rank = weight below, rank/quantile/CDF/PMF are monotone and dual, exact mode is exact, invalid queries are rejected; plus per-kind correspondence of the executable model with the real headers (random bits hooked) and a trace oracle. '
+              + "Parts: " + " ".join(SPEC.claim_texts))
+CLAIM = dict(text=CLAIM_TEXT,
+             note="Combined over three parts (kll, req, quantiles); each part's model is tied to its own header by differential runs; Float thresholds of rank/quantile are executed and bit-compared, the theorems are over Nat/Rat.",
+             technique='Lean 4 invariant proofs over coin/choice trees + generic sorted-view theory + differential correspondence (random source hooked) + trace oracle',
+             design='DESIGN.md §3 C07')
